@@ -23,13 +23,16 @@ pub trait IterConfig: Clone + Send + 'static {
     fn id(&self) -> &Self::Id;
 
     /// Try to get offsets from live indexes
-    /// Returns: (file_offsets, offsets_index)
+    /// Returns: (segment_id, file_offsets, offsets_index). The segment id is read while the
+    /// index lock is held: a rollover swaps the indexes and publishes the new id under the
+    /// write lock, so the offsets always belong to the returned segment.
     fn try_get_from_live_indexes(
         &self,
+        segment_id: &AtomicU32,
         live_indexes: &LiveIndexes,
         from_position: u64,
         dir: IterDirection,
-    ) -> impl Future<Output = Option<(Vec<u64>, usize)>>;
+    ) -> impl Future<Output = Option<(SegmentId, Vec<u64>, usize)>>;
 
     /// Try to get offsets from a reader set
     /// Returns: (file_offsets, offsets_index)
@@ -74,12 +77,14 @@ impl IterConfig for PartitionIterConfig {
 
     async fn try_get_from_live_indexes(
         &self,
+        segment_id: &AtomicU32,
         live_indexes: &LiveIndexes,
         from_position: u64,
         dir: IterDirection,
-    ) -> Option<(Vec<u64>, usize)> {
-        let (sequence_min, offsets) = {
+    ) -> Option<(SegmentId, Vec<u64>, usize)> {
+        let (segment_id, sequence_min, offsets) = {
             let live_indexes_guard = live_indexes.read().await;
+            let segment_id = segment_id.load(Ordering::Acquire);
             let partition_index = live_indexes_guard.partition_index.get(self.partition_id)?;
 
             if partition_index.sequence_min > from_position {
@@ -87,6 +92,7 @@ impl IterConfig for PartitionIterConfig {
             }
 
             (
+                segment_id,
                 partition_index.sequence_min,
                 partition_index.offsets.clone(),
             )
@@ -100,7 +106,7 @@ impl IterConfig for PartitionIterConfig {
 
         let file_offsets = offsets.into_iter().map(|o| o.offset).collect();
 
-        Some((file_offsets, offsets_index))
+        Some((segment_id, file_offsets, offsets_index))
     }
 
     fn try_get_from_reader_set(
@@ -173,19 +179,25 @@ impl IterConfig for StreamIterConfig {
 
     async fn try_get_from_live_indexes(
         &self,
+        segment_id: &AtomicU32,
         live_indexes: &LiveIndexes,
         from_position: u64,
         dir: IterDirection,
-    ) -> Option<(Vec<u64>, usize)> {
-        let (version_min, offsets) = {
+    ) -> Option<(SegmentId, Vec<u64>, usize)> {
+        let (segment_id, version_min, offsets) = {
             let live_indexes_guard = live_indexes.read().await;
+            let segment_id = segment_id.load(Ordering::Acquire);
             let stream_index = live_indexes_guard.stream_index.get(&self.stream_id)?;
 
             if stream_index.version_min > from_position {
                 return None;
             }
 
-            (stream_index.version_min, stream_index.offsets.clone())
+            (
+                segment_id,
+                stream_index.version_min,
+                stream_index.offsets.clone(),
+            )
         };
 
         let offsets_index = if matches!(dir, IterDirection::Reverse) && from_position == u64::MAX {
@@ -194,7 +206,7 @@ impl IterConfig for StreamIterConfig {
             (from_position.saturating_sub(version_min) as usize).min(offsets.len())
         };
 
-        Some((offsets, offsets_index))
+        Some((segment_id, offsets, offsets_index))
     }
 
     fn try_get_from_reader_set(
@@ -314,18 +326,15 @@ impl<C: IterConfig> BucketIter<C> {
     ) -> Result<Self, C::Error> {
         // Check live indexes first
         if let Some((segment_id, index)) = live_indexes.get(&bucket_id) {
-            let segment_id = segment_id.load(Ordering::Acquire);
             #[cfg(sierradb_verif)]
             crate::writer_thread_pool::verif::pause("iter.segment_id_loaded");
-            let matches = match dir {
-                IterDirection::Forward => segment_id >= next_segment_id,
-                IterDirection::Reverse => segment_id <= next_segment_id,
-            };
-
-            if matches
-                && let Some((file_offsets, offsets_index)) = config
-                    .try_get_from_live_indexes(index, from_position, dir)
-                    .await
+            if let Some((segment_id, file_offsets, offsets_index)) = config
+                .try_get_from_live_indexes(segment_id, index, from_position, dir)
+                .await
+                && match dir {
+                    IterDirection::Forward => segment_id >= next_segment_id,
+                    IterDirection::Reverse => segment_id <= next_segment_id,
+                }
             {
                 let segment_iter = SegmentIter::new(
                     reader_pool,
@@ -464,11 +473,10 @@ impl<C: IterConfig> BucketIter<C> {
             }
             None => {
                 if let Some((segment_id, index)) = live_indexes.get(&bucket_id) {
-                    let segment_id = segment_id.load(Ordering::Acquire);
                     #[cfg(sierradb_verif)]
                     crate::writer_thread_pool::verif::pause("iter.segment_id_loaded");
-                    if let Some((file_offsets, offsets_index)) = config
-                        .try_get_from_live_indexes(index, from_position, dir)
+                    if let Some((segment_id, file_offsets, offsets_index)) = config
+                        .try_get_from_live_indexes(segment_id, index, from_position, dir)
                         .await
                     {
                         let segment_iter = SegmentIter::new(
